@@ -28,11 +28,9 @@ func (e EmptySet) Less(v Value) bool {
 	if e == v {
 		return false
 	}
-	switch v.(type) {
-	case Number, Tuple:
-		return false
-	}
-	return true
+	// Order by kind like every other value ({} has the lowest kind among sets; numbers and
+	// @neg tuples sort before it, tuples after it).
+	return e.Kind() < v.Kind()
 }
 
 func (e EmptySet) Negate() Value {
